@@ -14,6 +14,7 @@ import (
 	"grog/internal/output"
 	"grog/internal/output/handlers"
 	"grog/internal/proto/gen"
+	"grog/internal/verifhook"
 	"grog/internal/worker"
 	"os"
 	"path/filepath"
@@ -220,6 +221,7 @@ func (e *Executor) getTaskFunc(
 			// logger.Warnf("failed to check target %s cache: %v", target.Label, err)
 		}
 		target.HasCacheHit = targetResult != nil
+		verifhook.Event("cache.lookup", target.Label.String(), target.ChangeHash, fmt.Sprint(targetResult != nil))
 		if logger.DebugEnabled() {
 			logger.Debugf("%s: loaded target result %s", target.Label, formatTargetResultForDebug(targetResult))
 		}
@@ -266,7 +268,9 @@ func (e *Executor) getTaskFunc(
 			if loadingErr != nil {
 				// Don't return so that we instead break out and continue executing the target
 				logger.Errorf("%s re-running due to output loading failure: %v", target.Label, loadingErr)
+				verifhook.Event("cache.restorefail", target.Label.String())
 			} else {
+				verifhook.Event("cache.restored", target.Label.String())
 				if target.IsTest() {
 					executionTime := time.Since(startTime).Seconds()
 					if testLogger := console.GetTestLogger(ctx); testLogger != nil {
@@ -324,6 +328,7 @@ func (e *Executor) executeTarget(
 ) (dag.CacheResult, error) {
 	logger := console.GetLogger(ctx)
 
+	verifhook.Event("exec.begin", target.Label.String())
 	startTime := time.Now()
 	var err error
 	if target.Command != "" {
@@ -369,6 +374,7 @@ func (e *Executor) executeTarget(
 		return dag.CacheMiss, err
 	}
 
+	verifhook.Point("exec.outputs.pre", target.Label.String())
 	// Write outputs to the cache:
 	logger.Debugf("writing outputs for target %s", target.Label)
 	update(worker.Status(fmt.Sprintf("%s complete. writing outputs...", target.Label)))
@@ -379,6 +385,7 @@ func (e *Executor) executeTarget(
 
 	if isTainted {
 		go func() {
+			verifhook.Point("taint.clear", target.Label.String())
 			err = e.taintCache.Clear(ctx, target.Label)
 			if err != nil {
 				logger.Errorf("Failed to remove taint from target %s: %v", target.Label, err)
@@ -437,6 +444,9 @@ func (e *Executor) OnTargetComplete(ctx context.Context, target *model.Target, u
 		target.CacheTime += time.Since(cacheStart)
 	}()
 
+	verifhook.Event("result.write", target.Label.String(), target.ChangeHash)
+	verifhook.Point("exec.result.pre", target.Label.String())
+	defer verifhook.Point("exec.result.post", target.Label.String())
 	return e.targetCache.Write(ctx, targetResult)
 }
 
